@@ -14,6 +14,7 @@ import VerifModel.Model.NcAssemble
                                        writes for D, read back (r32 = i32 = id: float32-representable data)
     detect <isNc> <validNetcdf> <validComps> <validText>   (0/1)  → netcdf | comps | text | ERR
     nctext …                           → same   (C10_same_dataset: both formats denote the same dataset)
+    ncmixed …                          → same   (C10_mixed_replace: a text file and its NetCDF twin are interchangeable in one Data)
 
   canonical dataset line (one token, no blanks; every dimension sorted ascending — NaN last, stable —
   with the data moved along, other fields sorted by name):
@@ -218,6 +219,7 @@ def handle (args : List String) : Option String :=
       | .ok .text => some "text"
       | .error _ => some "ERR"
   | "nctext" :: _ => some "same"
+  | "ncmixed" :: _ => some "same"   -- implementation-only relation; theorems C10_mixed_replace / C10_mixed_reordered
   | _ => none
 
 end VerifModel.Driver.Nc
